@@ -331,7 +331,7 @@ pub fn run_batch(prop: &dyn Prop, opt: &Options) -> i32 {
         let again = run_one(prop, Tape::replay(min_tape.clone()), false, false);
         let reproduced = out.fail.as_ref().map(|f| f.0 == class).unwrap_or(false) && out.hash == again.hash;
         if !reproduced {
-            eprintln!("HARNESS-ERROR: minimised tape for {id} does not reproduce {class} deterministically");
+            eprintln!("HARNESS-ERROR: minimised tape for {id} does not reproduce {class} deterministically (job {idx}: {msg}; minimised run gave {:?}; tape {:?})", out.fail, min_tape);
             return 2;
         }
         let path = write_replay(prop, opt, idx, &class, &out, &min_tape, "violation");
